@@ -114,7 +114,9 @@ def join(
                 else:
                     # Remove features from the feature list, if it is not in
                     # this dataset, or cannot be computed on-the-fly.
-                    for feat in features:
+                    # iterate over a copy of the list, because we are
+                    # removing items from it
+                    for feat in features[:]:
                         if feat not in dsc.features:
                             features.remove(feat)
                             warnings.warn(
